@@ -24,6 +24,25 @@ pub mod mpsc {
             chans_created(*old(w)) == DONE ==> *final(w) == (World { done: fresh_chan(buffer as int), chans_created: old(w).chans_created + 1, ..*old(w) }),
             chans_created(*old(w)) != READY && chans_created(*old(w)) != DONE ==> *final(w) == (World { chans_created: old(w).chans_created + 1, ..*old(w) }),
     { unimplemented!() }
+
+    /// rule R30: the `channel` call whose pair is bound to `fn_ready_tx / fn_ready_rx`: the fresh channel that the code uses as the
+    /// ready channel (a label for a fresh channel; every later use is checked against it)
+    #[verifier::external_body]
+    pub fn channel_ready<T>(buffer: usize, Tracked(w): Tracked<&mut World>) -> (r: (Sender<T>, Receiver<T>))
+        requires buffer > 0,
+        ensures
+            r.0.chan() == READY && r.1.chan() == READY,
+            *final(w) == (World { ready: fresh_chan(buffer as int), chans_created: old(w).chans_created + 1, ..*old(w) }),
+    { unimplemented!() }
+
+    /// rule R30: the `channel` call whose pair is bound to `fn_done_tx / fn_done_rx`
+    #[verifier::external_body]
+    pub fn channel_done<T>(buffer: usize, Tracked(w): Tracked<&mut World>) -> (r: (Sender<T>, Receiver<T>))
+        requires buffer > 0,
+        ensures
+            r.0.chan() == DONE && r.1.chan() == DONE,
+            *final(w) == (World { done: fresh_chan(buffer as int), chans_created: old(w).chans_created + 1, ..*old(w) }),
+    { unimplemented!() }
 }
 
 // ASSUMED (std): `<[T]>::to_vec` is a fresh Vec with the same elements
